@@ -516,7 +516,15 @@ type connectableObservableImpl[T any] struct {
 	config       ConnectableConfig[T]
 	source       Observable[T]
 	subject      Subject[T]
+	subjectMu    sync.Mutex // protects `subject` only; never held while calling out
 	subscription Subscription
+}
+
+func (s *connectableObservableImpl[T]) currentSubject() Subject[T] {
+	s.subjectMu.Lock()
+	defer s.subjectMu.Unlock()
+
+	return s.subject
 }
 
 // Connect connects the ConnectableObservable. When connected, the ConnectableObservable
@@ -545,20 +553,29 @@ func (s *connectableObservableImpl[T]) ConnectWithContext(ctx context.Context) S
 	verifPoint("observable:ConnectWithContext:lock#0", s)
 	s.mu.Lock()
 	if s.subscription == nil || s.subscription.IsClosed() {
-		s.subscription = s.source.SubscribeWithContext(ctx, s.subject)
+		subscription := s.source.SubscribeWithContext(ctx, s.currentSubject())
+		s.subscription = subscription
 		s.mu.Unlock()
 		verifPoint("observable:ConnectWithContext:unlocked#0", s)
-		s.subscription.Add(func() {
+		subscription.Add(func() {
 			if s.config.ResetOnDisconnect {
-				s.subject = s.config.Connector()
+				// The teardown runs on whichever goroutine disconnects: the connector subject is read
+				// concurrently by Connect and Subscribe.
+				subject := s.config.Connector()
+				s.subjectMu.Lock()
+				s.subject = subject
+				s.subjectMu.Unlock()
 			}
 		})
-	} else {
-		s.mu.Unlock()
-		verifPoint("observable:ConnectWithContext:unlocked#1", s)
+
+		return subscription
 	}
 
-	return s.subscription
+	subscription := s.subscription
+	s.mu.Unlock()
+	verifPoint("observable:ConnectWithContext:unlocked#1", s)
+
+	return subscription
 }
 
 func (s *connectableObservableImpl[T]) Subscribe(observer Observer[T]) Subscription {
@@ -566,5 +583,5 @@ func (s *connectableObservableImpl[T]) Subscribe(observer Observer[T]) Subscript
 }
 
 func (s *connectableObservableImpl[T]) SubscribeWithContext(ctx context.Context, observer Observer[T]) Subscription {
-	return s.subject.SubscribeWithContext(ctx, observer)
+	return s.currentSubject().SubscribeWithContext(ctx, observer)
 }
